@@ -249,18 +249,19 @@ HandleEnd ==
 \* `run_queue.lock().unwrap().pop()`: highest priority first, ties arbitrary
 Poppable == {j \in queue : \A o \in queue : Prio(o) <= Prio(j)}
 
-StartFrom(j, poppable) ==
+StartFrom(j, poppable, sawAbort) ==
   /\ j \in poppable
   /\ queue' = queue \ {j}
-  /\ IF abort
+  /\ IF sawAbort
        THEN UNCHANGED active               \* "Aborting": dropped, no message is ever sent
        ELSE active' = active \cup {j}
   /\ UNCHANGED <<pending, racc, launched, count, succ, jobCount, decd, finished, bad, chan,
                  mainPc, batch, sawErr, abort, err>>
   /\ lastw' = lastw
-  /\ rfbad' = (rfbad \/ (~abort /\ \E k \in DOMAIN ReadsOf(j) : lastw[ReadsOf(j)[k]] # CanonRf(j)[k]))
+  /\ rfbad' = (rfbad \/ (~sawAbort /\ \E k \in DOMAIN ReadsOf(j) : lastw[ReadsOf(j)[k]] # CanonRf(j)[k]))
 
-Start(j) == StartFrom(j, Poppable)
+\* the closure loads abort_queued_jobs right after the pop
+Start(j) == StartFrom(j, Poppable, abort)
 
 Finish(j, ok, panicked) ==
   /\ j \in active
